@@ -882,3 +882,194 @@ func phiIsRead(phi *ssa.Phi) bool {
 	}
 	return walk(phi)
 }
+
+// millerAffineRule: the Miller loop of BLS12-381 reads the x and y of its G1 argument as affine coordinates.
+// At every call site of miller the argument is either a local on which toAffine was called on every path
+// before, or an element of a slice that comes, on every return path of whatever produced it, out of
+// affinize. A producer with a path that hands back plain copies (a fast path for a single point) evaluates
+// the lines on projective coordinates: the product of pairings is wrong for every point with Z != 1.
+func (c *Ctx) millerAffineRule(p *Program, rule string) {
+	const pkg = "ecc/bls12381"
+	sp := p.SSAPkg[circlPath+"/"+pkg]
+	if sp == nil {
+		c.undecided(rule, "Miller loop arguments are affine", "package does not resolve", "")
+		return
+	}
+	var mustAff func(v ssa.Value, depth int) bool
+	mustReturnAffinize := func(cal *ssa.Function, depth int) bool {
+		if cal == nil || cal.Blocks == nil {
+			return false
+		}
+		any := false
+		for _, b := range cal.Blocks {
+			if ret, ok := b.Instrs[len(b.Instrs)-1].(*ssa.Return); ok {
+				if len(ret.Results) == 0 || !mustAff(ret.Results[0], depth+1) {
+					return false
+				}
+				any = true
+			}
+		}
+		return any
+	}
+	mustAff = func(v ssa.Value, depth int) bool {
+		if depth > 6 {
+			return false
+		}
+		switch x := v.(type) {
+		case *ssa.Phi:
+			for _, e := range x.Edges {
+				if !mustAff(e, depth+1) {
+					return false
+				}
+			}
+			return len(x.Edges) > 0
+		case *ssa.Call:
+			cal := x.Call.StaticCallee()
+			if cal == nil {
+				return false
+			}
+			if cal.Name() == "affinize" && cal.Pkg == sp {
+				return true
+			}
+			return cal.Pkg == sp && mustReturnAffinize(cal, depth)
+		case *ssa.Slice:
+			return mustAff(x.X, depth+1)
+		}
+		return false
+	}
+	n := 0
+	var fns []*ssa.Function
+	for f := range p.AllFuncs {
+		if f.Blocks != nil && f.Pkg == sp && sourceFunc(f) {
+			fns = append(fns, f)
+		}
+	}
+	sort.Slice(fns, func(i, j int) bool { return fns[i].String() < fns[j].String() })
+	for _, f := range fns {
+		for _, b := range f.Blocks {
+			for _, in := range b.Instrs {
+				call, ok := in.(*ssa.Call)
+				if !ok {
+					continue
+				}
+				cal := call.Call.StaticCallee()
+				if cal == nil || cal.Name() != "miller" || cal.Pkg != sp || len(call.Call.Args) < 2 {
+					continue
+				}
+				n++
+				arg := call.Call.Args[1]
+				construct := fmt.Sprintf("%s: the G1 argument of the Miller loop is affine", fname(f))
+				okArg, how := false, ""
+				switch a := arg.(type) {
+				case *ssa.Alloc:
+					// a local copy normalised in place
+					for _, r := range *a.Referrers() {
+						if c2, ok := r.(*ssa.Call); ok {
+							if t := c2.Call.StaticCallee(); t != nil && t.Name() == "toAffine" && len(c2.Call.Args) > 0 && c2.Call.Args[0] == ssa.Value(a) && instrDominates(c2, call) {
+								okArg, how = true, "toAffine is called on the local on every path before"
+							}
+						}
+					}
+				case *ssa.IndexAddr:
+					if mustAff(a.X, 0) {
+						okArg, how = true, "element of a slice that comes out of affinize on every path"
+					}
+				}
+				if okArg {
+					c.ok(rule, construct, how, p.pos(call.Pos()))
+				} else {
+					c.bad(rule, construct, fmt.Sprintf("the argument %s at %s is neither normalised by toAffine nor, on every path, a result of affinize", descVal(arg), p.pos(call.Pos())), p.fnPos(f))
+				}
+			}
+		}
+	}
+	c.count("miller_sites", n)
+	if n < 3 {
+		c.undecided(rule, "Miller loop call sites", fmt.Sprintf("only %d found (three on the tree)", n), "")
+	}
+}
+
+func init() {
+	prev := registry["C13"]
+	registry["C13"] = func(c *Ctx) {
+		prev(c)
+		if p := c.Prog("amd64"); p != nil {
+			c.Clauses = append(c.Clauses, "C13.milleraffine: every G1 argument of the BLS12-381 Miller loop was normalised (toAffine on the local, or affinize on every path that produces the slice)")
+			c.millerAffineRule(p, "C13.milleraffine")
+		}
+	}
+}
+
+// bigWordRule: a word of a math/big.Int (an element of the slice Bits() returns) is not incremented or
+// decremented in place: the addition may carry (and the subtraction of a negative digit is an addition), and
+// nothing propagates it into the next word. Word-level edits that cannot carry (masks, shifts, assignments of
+// values computed elsewhere) are not subject, nor are functions that do their own carry chain with math/bits.
+func (c *Ctx) bigWordRule(p *Program, rule string) {
+	var fns []*ssa.Function
+	for f := range p.AllFuncs {
+		if f.Blocks != nil && sourceFunc(f) && isCirclFunc(f) {
+			fns = append(fns, f)
+		}
+	}
+	sort.Slice(fns, func(i, j int) bool { return fns[i].String() < fns[j].String() })
+	n, nbad := 0, 0
+	for _, f := range fns {
+		usesBits, chain := false, false
+		for _, b := range f.Blocks {
+			for _, in := range b.Instrs {
+				if call, ok := in.(*ssa.Call); ok {
+					switch p.staticCalleeName(&call.Call) {
+					case "(*math/big.Int).Bits":
+						usesBits = true
+					case "math/bits.Add64", "math/bits.Sub64", "math/bits.Add", "math/bits.Sub", "math/bits.Add32", "math/bits.Sub32":
+						chain = true
+					}
+				}
+			}
+		}
+		if !usesBits {
+			continue
+		}
+		n++
+		if chain {
+			continue
+		}
+		for _, b := range f.Blocks {
+			for _, in := range b.Instrs {
+				st, ok := in.(*ssa.Store)
+				if !ok {
+					continue
+				}
+				bo, ok := st.Val.(*ssa.BinOp)
+				if !ok || (bo.Op != token.ADD && bo.Op != token.SUB) {
+					continue
+				}
+				base, _ := memRoot(st.Addr)
+				call, ok := base.(*ssa.Call)
+				if !ok || p.staticCalleeName(&call.Call) != "(*math/big.Int).Bits" {
+					continue
+				}
+				nbad++
+				c.bad(rule, fname(f)+": words of a big.Int are not added to in place", fmt.Sprintf("the word stored at %s is the old word %s something, with no carry into the next word", p.pos(st.Pos()), bo.Op.String()), p.fnPos(f))
+			}
+		}
+	}
+	c.count("big_bits_functions", n)
+	if nbad == 0 {
+		c.ok(rule, "no word of a big.Int is incremented or decremented in place", fmt.Sprintf("%d functions read the words of a big.Int", n), "")
+	}
+}
+
+func init() {
+	for _, prop := range []string{"C05", "C13"} {
+		prop := prop
+		prev := registry[prop]
+		registry[prop] = func(c *Ctx) {
+			prev(c)
+			if p := c.Prog("amd64"); p != nil {
+				c.Clauses = append(c.Clauses, prop+".bigword: no word of a math/big.Int (Bits()) is incremented or decremented in place without a carry chain")
+				c.bigWordRule(p, prop+".bigword")
+			}
+		}
+	}
+}
